@@ -94,8 +94,13 @@ def run_where(env, where) -> list:
         zenv.reset_process_state()
 
 
-def tlc_filter_verdicts(universes: list, records: list, ctx, tag: str) -> dict:
+def tlc_filter_verdicts(universes: list, records: list, ctx, tag: str, batch: int = 6000) -> dict:
     """records: [{id, u, where, obs}] -> {id: (missing, extra)} as decided by TLC (Trace_Filter)."""
+    if len(records) > batch:
+        out = {}
+        for i in range(0, len(records), batch):
+            out.update(tlc_filter_verdicts(universes, records[i:i + batch], ctx, f"{tag}-{i // batch}", batch))
+        return out
     root = tlc.scratch_root()
     fu, fr = root / f"univ-{tag}.ndjson", root / f"queries-{tag}.ndjson"
     fu.write_text("".join(json.dumps({"notes": u}) + "\n" for u in universes))
